@@ -115,6 +115,14 @@ package clickhouse_planner
 //@   ensures result1 == nil ==> isRawCmp(result0)
 //@   ensures pattern: result1 == nil ==> unbox(unbox(result0, "*sql.LogicalOp").clauses[0], "*sql.RawObject").val == likeOp + "(samples.string, '%" + likeLiteral(strTrim(sqlLit(val), "'")) + "%')"
 //@   ensures is-true: result1 == nil ==> isIntCmp(result0) && opOf(result0) == "==" && intOf(result0) == 1
+//@   replay:
+//@     import "strings"
+//@     import sql "github.com/metrico/qryn/reader/utils/sql_select"
+//@     go: c, err := (&LineFilterPlanner{}).doLikeVal("like", "a_b_c%d%e")
+//@     go: if err != nil { panic(err) }
+//@     go: s, _ := c.String(sql.DefaultCtx())
+//@     go: if !strings.Contains(s, `'%a\_b\_c\%d\%e%'`) { confirm("substring filter a_b_c%d%e is rendered with unescaped LIKE wildcards: " + s) }
+//@   end
 
 // A prepared plan is executed again by live tailing: Process must not change
 // the planner's configuration (frame: only the statement being built and the
